@@ -659,7 +659,12 @@ func retryRun(args []string) int {
 	par := fs.Int("par", 16, "schedulers running concurrently")
 	canary := fs.Int("canary", -1, "internal: run the single case script \"ep\" in the given mode and exit")
 	canary2 := fs.String("canary2", "", "internal: <mode>:<stop|ctx> — the context ends during an attempt that then panics")
+	canary3 := fs.Int("canary3", -1, "internal: a job whose Execute AND Description panic, in the given mode")
 	fs.Parse(args)
+	if *canary3 >= 0 {
+		retryCanaryDescriptionPanics(*canary3)
+		return 0
+	}
 	if *canary2 != "" {
 		var m int
 		var via string
@@ -729,6 +734,37 @@ func retryRun(args []string) int {
 			case strings.Contains(string(outp), "WAIT-HUNG"):
 				crashed = append(crashed, "C13 Wait did not return within 5 s after the context ended during an attempt that then panicked "+what)
 			}
+		}
+	}
+	// a job that panics in Execute and whose Description() panics as well (a typed-nil job, a job with an unset dependency used by both
+	// methods): containment must not depend on calling back into the job after the recover (round 5)
+	for mode := range retryModes {
+		cmd := exec.Command(selfExe(), "retry", "--canary3", fmt.Sprint(mode), "--out", *out)
+		done := make(chan struct{})
+		var outp []byte
+		var cerr error
+		go func() { outp, cerr = cmd.CombinedOutput(); close(done) }()
+		select {
+		case <-done:
+		case <-time.After(60 * time.Second):
+			_ = cmd.Process.Kill()
+			<-done
+		}
+		what := fmt.Sprintf("[mode=%s: a job whose Execute panics and whose Description() panics too, MaxRetries=1; a sibling job scheduled afterwards]", retryModes[mode])
+		switch {
+		case cerr != nil:
+			first := ""
+			for _, l := range strings.Split(string(outp), "\n") {
+				if strings.HasPrefix(l, "panic:") || strings.HasPrefix(l, "fatal error:") {
+					first = l
+					break
+				}
+			}
+			crashed = append(crashed, fmt.Sprintf("C13 a panicking job was not contained: the process running the scheduler died (%v; %s) %s", cerr, first, what))
+		case strings.Contains(string(outp), "SIBLING-DID-NOT-RUN"):
+			crashed = append(crashed, "C13 after a job panicked a sibling job scheduled afterwards did not run within 5 s "+what)
+		case strings.Contains(string(outp), "WAIT-HUNG"):
+			crashed = append(crashed, "C13 Wait did not return within 5 s after Stop "+what)
 		}
 	}
 	if len(crashed) > 0 {
@@ -1048,3 +1084,54 @@ func (j *ctxPanicJob) Execute(ctx context.Context) error {
 	panic("clean-up after cancellation failed")
 }
 func (j *ctxPanicJob) Description() string { return "ctx-panic" }
+
+
+// retryCanaryDescriptionPanics (child process): a job whose Execute panics and whose Description panics as well.
+func retryCanaryDescriptionPanics(mode int) {
+	opts := []quartz.SchedulerOpt{quartz.WithOutdatedThreshold(time.Minute)}
+	switch mode % 3 {
+	case 0:
+		opts = append(opts, quartz.WithBlockingExecution())
+	case 1:
+		opts = append(opts, quartz.WithWorkerLimit(2))
+	}
+	s, err := quartz.NewStdScheduler(opts...)
+	must(err)
+	s.Start(context.Background())
+	jo := quartz.NewDefaultJobDetailOptions()
+	jo.MaxRetries, jo.RetryInterval = 1, time.Millisecond
+	must(s.ScheduleJob(quartz.NewJobDetailWithOptions(&descPanicJob{}, quartz.NewJobKey("dp"), jo), quartz.NewRunOnceTrigger(time.Millisecond)))
+	time.Sleep(100 * time.Millisecond)
+	ran := make(chan struct{}, 1)
+	sib := &retryOnceJobFn{fn: func() {
+		select {
+		case ran <- struct{}{}:
+		default:
+		}
+	}}
+	must(s.ScheduleJob(quartz.NewJobDetail(sib, quartz.NewJobKey("dp-sibling")), quartz.NewRunOnceTrigger(5*time.Millisecond)))
+	select {
+	case <-ran:
+	case <-time.After(5 * time.Second):
+		fmt.Println("SIBLING-DID-NOT-RUN")
+	}
+	s.Stop()
+	wctx, wc := context.WithTimeout(context.Background(), 5*time.Second)
+	s.Wait(wctx)
+	if wctx.Err() != nil {
+		fmt.Println("WAIT-HUNG")
+	} else {
+		fmt.Println("CONTAINED")
+	}
+	wc()
+}
+
+type descPanicJob struct{ dep *struct{ name string } }
+
+func (j *descPanicJob) Execute(context.Context) error { panic("descPanicJob: Execute uses an unset dependency: " + j.dep.name) }
+func (j *descPanicJob) Description() string           { return "job of " + j.dep.name }
+
+type retryOnceJobFn struct{ fn func() }
+
+func (j *retryOnceJobFn) Execute(context.Context) error { j.fn(); return nil }
+func (j *retryOnceJobFn) Description() string           { return "sibling-fn" }
